@@ -2,6 +2,7 @@ import SecsModel.Proofs.SecsIHeader
 import SecsModel.Model.SecsI
 import SecsModel.Proofs.SecsI
 import SecsModel.Proofs.SecsIReasm
+import SecsModel.Gen.Reasm
 /-!
 # C16 — SECS-I blocks split, checksum and reassemble any message body without loss
 
@@ -229,5 +230,28 @@ example :
 /-- non-vacuity / sanity: a 245-byte body gives two blocks of 244 and 1 bytes -/
 example : ((split ⟨1, 2, 3, 4, 0, false, true, true⟩ (List.replicate 245 7)).map (fun b => (b.header.block, b.header.last_block, b.data.length)))
     = [(1, false, 244), (2, true, 1)] := by decide +kernel
+
+
+/-! ## generated: `Protocol._add_message_block` as the source has it now -/
+
+/-- **The table of incomplete messages is keyed by the full system bytes.**  `Gen.Reasm.key` is the translated expression that indexes
+`self._incomplete_messages` (the translator refuses a method that uses two different ones); it is the key of the model's `addBlock`.
+Any coarser key (a mask, the transaction half of the system bytes) merges open messages that `reassembly` keeps apart. -/
+theorem reassembly_key_is_system_bytes (b : Block) :
+    Gen.Reasm.key b.header.system b.header.device_id b.header.stream b.header.function b.header.block = keyOf b := rfl
+
+/-- the statements of `_add_message_block` and the three `SecsIMessage` properties are the ones `addBlock`, `extend`, `Message.data`,
+`Message.header?` and `Message.complete` model: create-from-block or append, look at the last block's end bit, remove and hand over -/
+theorem reassembly_statements :
+    Gen.Reasm.skeleton = [
+      "if K not in T: ; T[K] = self.message_type.from_block(block) ; else: ; T[K].blocks.append(block)",
+      "message = T[K]",
+      "if not message.complete: ; return None",
+      "del T[K]",
+      "return message"]
+    ∧ Gen.Reasm.msgHeader = "self._blocks[-1].header"
+    ∧ Gen.Reasm.msgData = "b''.join((block.data for block in self._blocks))"
+    ∧ Gen.Reasm.msgComplete = "self.blocks[-1].header.last_block"
+    ∧ Gen.Reasm.fromBlock = "cls(block.header, block.data, complete=False)" := by decide
 
 end SecsModel.Props.C16
